@@ -421,7 +421,30 @@ func ruleLoadRepair(c *Ctx) {
 	mutGroups := P.Field(plc, "ruleConfig", "groups")
 	mutF := P.Field(plc, "ruleConfigPatch", "mut")
 	nAssign := 0
-	for _, f := range append([]*ssa.Function{adj}, adj.AnonFuncs...) {
+	// the assignment is in adjust, in a literal of it, or in a method handed to iterateRules as the callback
+	where := append([]*ssa.Function{adj}, adj.AnonFuncs...)
+	for _, b := range adj.Blocks {
+		for _, ins := range b.Instrs {
+			mc, ok := ins.(*ssa.MakeClosure)
+			if !ok {
+				continue
+			}
+			g, _ := mc.Fn.(*ssa.Function)
+			if g == nil || g.Synthetic == "" {
+				continue // a literal: already among the AnonFuncs
+			}
+			for _, gb := range g.Blocks { // bound-method wrapper: the method it forwards to
+				for _, gi := range gb.Instrs {
+					if ci, ok := gi.(ssa.CallInstruction); ok {
+						if m := ci.Common().StaticCallee(); m != nil && m.Pkg == adj.Pkg {
+							where = append(where, m)
+						}
+					}
+				}
+			}
+		}
+	}
+	for _, f := range where {
 		for _, st := range storesToField(f, groupF) {
 			nAssign++
 			fromPatch := valueIsCallTo(st.Val, patchGet) || derivesFrom(st.Val, func(v ssa.Value) bool {
